@@ -1147,7 +1147,7 @@ def same_file_family(F, f, limit=120):
 # ---------------------------------------------------------------------------------------------------------------
 # boolean assume-and-propagate: blocks reachable when some locals (parameters) hold known booleans
 # ---------------------------------------------------------------------------------------------------------------
-def reachable_under_bools(f, init, start=0):
+def reachable_under_bools(f, init, start=0, avoid=()):
     """Blocks of f reachable from `start` when the locals in `init` (local -> bool) hold those values on entry.
     Booleans are propagated through copies, `!`, `|`, `&`; a bool switch on a known value follows one edge only."""
     seen = set()
@@ -1201,7 +1201,8 @@ def reachable_under_bools(f, init, start=0):
             e.pop(t["d"]["l"], None)
         env2 = tuple(sorted(e.items()))
         for s2 in succ:
-            todo.append((s2, env2))
+            if s2 not in avoid:
+                todo.append((s2, env2))
     return out
 
 
